@@ -129,6 +129,7 @@ def make_case(rng, cid, d, tie, search, consistency=False, strength="strong", di
             "consistency": consistency, "modes": modes, "t": enc(t), "strings": strings,
             "sigma": [[enc(x) for x in row] for row in st["sigma"]],
             "set_mean": [enc(rng.choice(SMALL)) for _ in range(2 * d)],
+            "ps_t": [enc(rng.choice([F(1, 2), F(1, 3), F(-2, 3), F(3, 4), F(2), F(-1, 5), F(5, 2)])) for _ in range(d)],
             "mixed": st["mixed"], "displaced": st["displaced"], "cutoff": 4 if d <= 2 else 3}
     case.update(enc_state(st))
     if search:
@@ -178,7 +179,7 @@ def natl(v):
 
 
 GROUPS = ["getters", "via_xpxp", "via_xpxp_back", "via_xxpp", "red_rot", "purity", "xp_moments",
-          "ladder_moments", "normalised"]
+          "ladder_moments", "normalised", "variance", "ps_M", "purify_arg"]
 
 
 def coq_body(case, hb, with_purity):
@@ -195,6 +196,10 @@ def coq_body(case, hb, with_purity):
     e = lambda x: "%d/%d" % (x.numerator, x.denominator)
     n = len(case["modes"])
     strings = "[" + "; ".join(natl(x) for x in case["strings"]) + "]"
+    zs = []
+    for t_ in case["ps_t"]:
+        tt = F(t_)
+        zs.append((e((1 - tt * tt) / (1 + tt * tt)), e(2 * tt / (1 + tt * tt))))
     body = """
 Definition hb : Q := %s.
 Definition d : nat := %d%%nat.
@@ -209,12 +214,15 @@ Eval vm_compute in %s.
 Eval vm_compute in xp_moments hb d st %s.
 Eval vm_compute in ladder_moments hb d st %s.
 Eval vm_compute in normalised hb d st.
+Eval vm_compute in variance_out hb d st.
+Eval vm_compute in ps_out hb d st %s.
+Eval vm_compute in purify_arg_out hb d st.
 """ % (cq(hb), d, ccl(case["m"]), ccll(case["C"]), ccll(case["G"]),
        cql(map(e, mean)), cqll([map(e, r) for r in cov]),
        cql(map(e, mean_x)), cqll([map(e, r) for r in cov_x]),
        n, natl(case["modes"]), cq(e(c)), cq(e(s)),
        "purity_sq hb d st" if with_purity else "@nil Z",
-       strings, strings)
+       strings, strings, ccl(zs))
     return body
 
 
@@ -411,6 +419,21 @@ def run(chk: Check, only_cases=None):
                                       model[bad] if 0 <= bad < len(model) else None,
                                       got[bad] if 0 <= bad < len(got) else None))
             if name == "getters":
+                # what _get_density_matrix_calculation hands over: complex displacement / covariance,
+                # and the displaced / non-displaced decision (a function of _m only)
+                off = 4 * d + 16 * d * d
+                disp_model = model[off:off + 4 * d]
+                cov_model = model[off + 4 * d:off + 4 * d + 8 * d * d]
+                displaced = any(F(a) != 0 or F(b) != 0 for a, b in c["m"])
+                want_kind = "displaced" if displaced else "nondisplaced"
+                if r["density_kind"] != want_kind:
+                    corr_broken.append("density calculation: %s chosen for case %s hbar=%s, model (m %s 0) says %s"
+                                       % (r["density_kind"], c["id"], hb, "!=" if displaced else "==", want_kind))
+                else:
+                    badd = compare((disp_model if displaced else []) + cov_model, r["density_args"])
+                    if badd is not None:
+                        corr_broken.append("density calculation arguments: model != implementation at case %s hbar=%s entry %d"
+                                           % (c["id"], hb, badd))
                 model_xxpp[(c["id"], hb)] = (np.array(model[:2 * d]), np.array(model[2 * d:2 * d + 4 * d * d]).reshape(2 * d, 2 * d))
             if name == "red_rot":
                 # the public API for the same thing
@@ -560,6 +583,12 @@ def run(chk: Check, only_cases=None):
                                   "mean photon number disagrees with sum_n p(n) |n|",
                                   {"case_id": c["id"], "d": d, "hbar": hb,
                                    "from_fock_probabilities": k["mean_photon_from_fock"], "got": k["mean_photon"]})
+                if "variance" in k and abs(k["variance"] - k["variance_from_fock"]) > 1e-4 + 400 * abs(1 - k["fock_total"]):
+                    viol.add("C14:variance_photon_number:fock",
+                             "photon-number variance disagrees with the variance of the state's own Fock probabilities",
+                             {"case_id": c["id"], "d": d, "hbar": hb, "m": c["m"], "C": c["C"], "G": c["G"],
+                              "from_fock_probabilities": k["variance_from_fock"], "got": k["variance"],
+                              "fock_total": k["fock_total"]})
     chk.stream("representations against each other on the implementation: Wigner density vs xxpp moments; phase-shifter, parity, mean photon number vs the state's Fock probabilities",
                n_cons, n_cons, kind="search")
 
